@@ -1280,6 +1280,21 @@ def sp_solve(A, b, **kw):
 MODELS["numpy.linalg.solve"] = sp_solve
 
 
+@model("scipy.linalg.cho_solve")
+def sp_cho_solve(c_and_lower, b, **kw):
+    """cho_solve((L, True), b) with L the lower Cholesky factor of X: X^-1 b, i.e. the two triangular solves L^-T (L^-1 b)"""
+    if ctx().concrete:
+        raise Unsupported("cho_solve in the concrete cross-check")
+    try:
+        Lm, lower = c_and_lower
+    except Exception:
+        raise Unsupported("cho_solve argument")
+    if not (isinstance(unwrap(lower), bool) and unwrap(lower)) or not hasattr(Lm, "nf"):
+        raise Unsupported("cho_solve with an upper factor / outside the abstract matrix layer")
+    from . import matalg
+    return matalg.solve_triangular(Lm.T, matalg.solve_triangular(Lm, b, lower=True), lower=False)
+
+
 def _it_chain_from_iterable(parts):
     return it_chain(*list(parts))
 
